@@ -99,9 +99,9 @@ def gen_reply(r):
     name = ".".join(r.choice(ELEMS) for _ in range(r.choice([2, 3])))
     text = r.choice([None, "", "failed", "something went wrong: é€", "x" * 300])
     o = lambda s: "none" if s is None else hx(s)
-    return ("reply %s serial=%s sender=%s iface=%s member=%s object=%s dest=%s sig=%s name=%s text=%s bo=%s rserial=%d" % (
+    return ("reply %s serial=%s sender=%s iface=%s member=%s object=%s dest=%s sig=%s name=%s text=%s bo=%s rserial=%d rbo=%s" % (
         kind, serial, o(sender), o(iface), o(member), o(obj), o(dest), o(sig), hx(name), o(text), r.choice("lB"),
-        r.choice([1, 9, U32 - 1, r.randrange(1, U32)])))
+        r.choice([1, 9, U32 - 1, r.randrange(1, U32)]), r.choice("lBn")))
 
 
 # ------------------------------------------------------------------ property predicate on the implementation's output
